@@ -124,3 +124,301 @@ From BB Require Gen.Effects Proofs.Effects Proofs.EffectsOk.
 Theorem C08_assemble_is_a_function_of_its_inputs : Proofs.Effects.summary_ok Gen.Effects.summary = true.
 Proof. exact Proofs.EffectsOk.summary_ok_holds. Qed.
 Print Assumptions C08_assemble_is_a_function_of_its_inputs.
+
+(* ==== C08 at the level of the TEXT of a file ==========================================================================================
+   (sub-agent; Proofs/TextValTrack.v, TextValues.v, TextValForms.v over Proofs/TextTrack.v / TextLayout.v)
+   `assemble_text lines consts labels compress` (Proofs/Program.v) is lexer model -> parser model -> 16 passes on the lines of a file.
+   As in the C03_text and C09_text theorems: a line is located by `ls = ls1 ++ (l, text) :: ls2`; `text_layout r 0 ls1 cs1` says that cs1 is, in
+   order, the chunks of the lines in front of it, so that  p := tot csz cs1  is the FINAL offset the line stands at.
+   `final_env r` = ChainMap(final constants, final labels); `value_at env p e` (Proofs/TextValues.v) is the documented value of an
+   immediate expression at the offset p: a bare name = env name, %offset(L) = env L - p, %position(L, b) = b + env L, %hi / %lo =
+   the generated relocate_hi / relocate_lo (C07) of the inner value, arithmetic = Python's operators on the values of the names.
+   `unsettled consts e` (boolean): e contains %offset, or mentions a name that is not a constant -- the immediates whose value is
+   not known before the layout is final; on them the model's is_settled answers `no` (C08_unsettled_is_not_settled below; is_settled
+   is tied to asm.py by C08_settled_from_source). *)
+From Coq Require Import Bool.
+From BB Require Import Spec.RV32 Spec.Operands Spec.Data Spec.Sem Model.Lexer Model.PyExpr Model.Parser
+  Proofs.Program Proofs.TextGroups Proofs.TextTrack Proofs.TextLayout Proofs.EndToEnd Proofs.TextValues Proofs.TextValForms.
+Open Scope list_scope.
+
+(* the value of a label: a label line of the text that no constant shadows is worth the total size of the chunks of the lines in
+   front of it (C03_text_labels), and so are the three documented forms over it, at every offset p *)
+Theorem C08_text_label_forms :
+  forall ls c0 l0 cmp r,
+    assemble_text ls c0 l0 cmp = TDone r ->
+    forall la l' text' lb L, ls = la ++ (l', text') :: lb -> front_line l' text' = FOk (Some (ILabel L)) -> assoc_str L (r_consts r) = None ->
+      exists ca cb, r_chunks r = ca ++ cb /\ text_layout r 0 la ca /\ final_env r L = Some (tot csz ca) /\
+        forall p, value_at (final_env r) p (EArith (AName L)) = Some (tot csz ca) /\                                      (* L *)
+                  value_at (final_env r) p (EOff L) = Some (tot csz ca - p) /\                                             (* %offset(L) *)
+                  (forall b, value_at (final_env r) p (EPos L (EArith (ANum b))) = Some (b + tot csz ca)) /\               (* %position(L, b) *)
+                  (forall k, value_at (final_env r) p (EArith (ABin OAdd (AName L) (ANum k))) = Some (tot csz ca + k)).    (* L + k *)
+Proof. exact text_label_forms. Qed.
+Print Assumptions C08_text_label_forms.
+(* ... and the distance between two names, e.g. `end - start` *)
+Theorem C08_value_difference : forall env p a b qa qb, env a = Some qa -> env b = Some qb ->
+  value_at env p (EArith (ABin OSub (AName a) (AName b))) = Some (qa - qb).
+Proof. exact value_difference. Qed.
+Print Assumptions C08_value_difference.
+
+(* (1) INSTRUCTIONS.  A line of the I-, S- or U-type table (imm_line: `name rd, rs1, <imm>`, `name rd, <imm>(rs1)`, stores in both
+   spellings, `lui / auipc rd, <imm>`; the immediate tokens parse to e) whose immediate is unsettled: in BOTH modes the line owns ONE
+   chunk of FOUR bytes (an instruction whose immediate depends on a label is never compressed), the little-endian word w, and w
+   decodes (Spec/RV32.v decode32) to the instruction `name` whose register operands are the written ones (after alias resolution)
+   and whose immediate operand is z = the value of e at the offset p of the line under the final constants and labels
+   (imm_ops: ops = [r1; r2; z]; for lui / auipc [rd; upper_norm z], the documented second spelling of negative values). *)
+Theorem C08_text_instruction_value :
+  forall ls c0 l0 cmp r,
+    assemble_text ls c0 l0 cmp = TDone r ->
+    forall ls1 l text ls2 ts cls name regs fs e,
+      ls = ls1 ++ (l, text) :: ls2 -> lex_tokens text = Some ts -> imm_line l ts cls name regs fs e ->
+      unsettled (r_consts r) e = true ->
+      exists cs1 cs2 z w ops i,
+        r_chunks r = cs1 ++ (l, CBytes (le_bytes 4 w)) :: cs2 /\ text_layout r 0 ls1 cs1 /\ text_layout r (tot csz cs1 + 4) ls2 cs2 /\
+        value_at (final_env r) (tot csz cs1) e = Some z /\
+        operands32 name (map (alias_arg (r_consts r)) regs ++ [AInt z]) [] = Some ops /\ imm_ops cls ops z /\
+        denote32 name ops = Some i /\ decode32 w = Some i.
+Proof. exact text_instruction_value. Qed.
+Print Assumptions C08_text_instruction_value.
+
+(* the same for ANY instruction item the parser makes of a line (also an explicitly written c.* instruction; every class except
+   branches / jal, whose operand is a reference, see the C03_text theorems): never touched by the compression passes, one chunk, the bytes of the
+   encoder applied to the fields with `imm` replaced by the value at the offset of the line *)
+Theorem C08_text_instruction_any_class :
+  forall ls c0 l0 cmp r,
+    assemble_text ls c0 l0 cmp = TDone r ->
+    forall ls1 l text ls2 cls name fs c e,
+      ls = ls1 ++ (l, text) :: ls2 -> front_line l text = FOk (Some (IInstr cls name fs c)) ->
+      field_get "imm" fs = Some (FExpr e) -> unsettled (r_consts r) e = true -> not_jump cls = true ->
+      exists cs1 cs2 z bs, r_chunks r = cs1 ++ (l, CBytes bs) :: cs2 /\ text_layout r 0 ls1 cs1 /\
+        text_layout r (tot csz cs1 + (if c then 2 else 4)) ls2 cs2 /\
+        value_at (final_env r) (tot csz cs1 - back_of fs) e = Some z /\
+        encode_item l cls name (field_set "imm" (FInt z) (map (alias_field (r_consts r)) fs)) c = Done bs.
+Proof. exact text_instruction_raw. Qed.
+Print Assumptions C08_text_instruction_any_class.
+
+(* (2) li.  `li rd, <imm>` with an unsettled operand (rd written as a register, not as a constant's name): in both modes the line owns
+   TWO 4-byte chunks (lui + addi, neither compressed); loaded anywhere and run on the Spec machine (Spec/Sem.v; C05_li) they leave in
+   rd the value v of the operand at p -- the offset of the FIRST of the two instructions -- modulo 2^32, change nothing else, and
+   advance the pc by 8. *)
+Theorem C08_text_li_value :
+  forall ls c0 l0 cmp r,
+    assemble_text ls c0 l0 cmp = TDone r ->
+    forall ls1 l text ls2 ts rd imm e,
+      ls = ls1 ++ (l, text) :: ls2 -> lex_tokens text = Some ts -> li_line l ts rd imm e ->
+      unsettled (r_consts r) e = true -> assoc_str rd (r_consts r) = None ->
+      exists cs1 cs2 bs1 bs2 nrd v,
+        r_chunks r = cs1 ++ (l, CBytes bs1) :: (l, CBytes bs2) :: cs2 /\ text_layout r 0 ls1 cs1 /\
+        text_layout r (tot csz cs1 + 8) ls2 cs2 /\ zlen bs1 = 4 /\ zlen bs2 = 4 /\
+        regnum (AStr rd) = Some nrd /\ value_at (final_env r) (tot csz cs1) e = Some v /\
+        forall s, loaded s (bs1 ++ bs2) ->
+          exists s', run_n 2 s = Some s' /\ pc s' = wrap (pc s + 8) /\ only_reg s s' nrd (wrap v).
+Proof. exact text_li_line_value. Qed.
+Print Assumptions C08_text_li_value.
+
+(* (3) DATA.  `db | dh | dw | dd <imm>`: the line owns one chunk, the w little-endian bytes (two's complement; Spec/Data.v int_bytes,
+   C10_int / C10_bytes_meaning for the byte-level reading) of the value z of the operand at p, and z fits w bytes (signed or unsigned).
+   No `unsettled` hypothesis: data is never compressed. *)
+Theorem C08_text_data_value :
+  forall ls c0 l0 cmp r,
+    assemble_text ls c0 l0 cmp = TDone r ->
+    forall ls1 l text ls2 ts name w e,
+      ls = ls1 ++ (l, text) :: ls2 -> lex_tokens text = Some ts -> short_line l ts name w e ->
+      exists cs1 cs2 z, r_chunks r = cs1 ++ (l, CBytes (int_bytes w z)) :: cs2 /\ text_layout r 0 ls1 cs1 /\
+        text_layout r (tot csz cs1 + w) ls2 cs2 /\
+        value_at (final_env r) (tot csz cs1) e = Some z /\ int_fits w z = true.
+Proof. exact text_short_line_value. Qed.
+Print Assumptions C08_text_data_value.
+(* `pack <order><code> <imm>` for the 20 documented formats: the bytes in the GIVEN byte order (C10_pack) *)
+Theorem C08_text_pack_value :
+  forall ls c0 l0 cmp r,
+    assemble_text ls c0 l0 cmp = TDone r ->
+    forall ls1 l text ls2 ts o little c w signed e,
+      ls = ls1 ++ (l, text) :: ls2 -> lex_tokens text = Some ts -> pack_line l ts (String.append o c) e ->
+      In (o, little) order_table -> In (c, (w, signed)) code_table ->
+      exists cs1 cs2 z, r_chunks r = cs1 ++ (l, CBytes (pack_bytes little w z)) :: cs2 /\ text_layout r 0 ls1 cs1 /\
+        text_layout r (tot csz cs1 + w) ls2 cs2 /\
+        value_at (final_env r) (tot csz cs1) e = Some z /\ pack_fits w signed z = true.
+Proof. exact text_pack_line_value. Qed.
+Print Assumptions C08_text_pack_value.
+
+(* ---- the property's own sentence, composed: the operand is an expression over ONE label line L of the text that no constant shadows
+   (over_label L e: e mentions L and no other name -- `L`, `%offset(L)`, `%position(L, 8)`, `L + 4`, `%hi(L)`, `%lo(%offset(L))`,
+   `L * 2 + 1` ...).  Then the value emitted is  value_at (only L q) p e  =  e computed with  L := q = the total size of the chunks of
+   the lines in front of L's label line  and  position := p = the total size of the chunks of the lines in front of THIS line;
+   it needs no `unsettled` hypothesis (such an expression is unsettled).  C08_over_label_forms spells out the three documented forms. *)
+Theorem C08_text_instruction_label :
+  forall ls c0 l0 cmp r,
+    assemble_text ls c0 l0 cmp = TDone r ->
+    forall ls1 l text ls2 ts cls name regs fs e la l' text' lb L,
+      ls = ls1 ++ (l, text) :: ls2 -> lex_tokens text = Some ts -> imm_line l ts cls name regs fs e -> over_label L e ->
+      ls = la ++ (l', text') :: lb -> front_line l' text' = FOk (Some (ILabel L)) -> assoc_str L (r_consts r) = None ->
+      exists cs1 cs2 ca cb z w ops i,
+        r_chunks r = cs1 ++ (l, CBytes (le_bytes 4 w)) :: cs2 /\ text_layout r 0 ls1 cs1 /\
+        r_chunks r = ca ++ cb /\ text_layout r 0 la ca /\
+        value_at (only L (tot csz ca)) (tot csz cs1) e = Some z /\
+        operands32 name (map (alias_arg (r_consts r)) regs ++ [AInt z]) [] = Some ops /\ imm_ops cls ops z /\
+        denote32 name ops = Some i /\ decode32 w = Some i.
+Proof. exact text_instruction_label. Qed.
+Print Assumptions C08_text_instruction_label.
+Theorem C08_text_li_label :
+  forall ls c0 l0 cmp r,
+    assemble_text ls c0 l0 cmp = TDone r ->
+    forall ls1 l text ls2 ts rd imm e la l' text' lb L,
+      ls = ls1 ++ (l, text) :: ls2 -> lex_tokens text = Some ts -> li_line l ts rd imm e -> over_label L e ->
+      assoc_str rd (r_consts r) = None ->
+      ls = la ++ (l', text') :: lb -> front_line l' text' = FOk (Some (ILabel L)) -> assoc_str L (r_consts r) = None ->
+      exists cs1 cs2 ca cb bs1 bs2 nrd v,
+        r_chunks r = cs1 ++ (l, CBytes bs1) :: (l, CBytes bs2) :: cs2 /\ text_layout r 0 ls1 cs1 /\
+        r_chunks r = ca ++ cb /\ text_layout r 0 la ca /\ zlen bs1 = 4 /\ zlen bs2 = 4 /\
+        regnum (AStr rd) = Some nrd /\ value_at (only L (tot csz ca)) (tot csz cs1) e = Some v /\
+        forall s, loaded s (bs1 ++ bs2) ->
+          exists s', run_n 2 s = Some s' /\ pc s' = wrap (pc s + 8) /\ only_reg s s' nrd (wrap v).
+Proof. exact text_li_label. Qed.
+Print Assumptions C08_text_li_label.
+Theorem C08_text_data_label :
+  forall ls c0 l0 cmp r,
+    assemble_text ls c0 l0 cmp = TDone r ->
+    forall ls1 l text ls2 ts name w e la l' text' lb L,
+      ls = ls1 ++ (l, text) :: ls2 -> lex_tokens text = Some ts -> short_line l ts name w e -> over_label L e ->
+      ls = la ++ (l', text') :: lb -> front_line l' text' = FOk (Some (ILabel L)) -> assoc_str L (r_consts r) = None ->
+      exists cs1 cs2 ca cb z,
+        r_chunks r = cs1 ++ (l, CBytes (int_bytes w z)) :: cs2 /\ text_layout r 0 ls1 cs1 /\
+        r_chunks r = ca ++ cb /\ text_layout r 0 la ca /\
+        value_at (only L (tot csz ca)) (tot csz cs1) e = Some z /\ int_fits w z = true.
+Proof. exact text_data_label. Qed.
+Print Assumptions C08_text_data_label.
+Theorem C08_over_label_forms : forall L q p,
+  (over_label L (EArith (AName L)) /\ value_at (only L q) p (EArith (AName L)) = Some q) /\                                  (* L *)
+  (over_label L (EOff L) /\ value_at (only L q) p (EOff L) = Some (q - p)) /\                                                (* %offset(L) *)
+  (forall b, over_label L (EPos L (EArith (ANum b))) /\ value_at (only L q) p (EPos L (EArith (ANum b))) = Some (b + q)) /\   (* %position(L, b) *)
+  (forall k, over_label L (EArith (ABin OAdd (AName L) (ANum k))) /\
+             value_at (only L q) p (EArith (ABin OAdd (AName L) (ANum k))) = Some (q + k)) /\                                 (* L + k *)
+  (forall e, over_label L e -> over_label L (EHi e) /\ value_at (only L q) p (EHi e) = option_map relocate_hi (value_at (only L q) p e)) /\
+  (forall e, over_label L e -> over_label L (ELo e) /\ value_at (only L q) p (ELo e) = option_map relocate_lo (value_at (only L q) p e)).
+Proof. exact over_label_forms. Qed.
+Print Assumptions C08_over_label_forms.
+
+(* `unsettled` is the negation of the model's is_settled (the test asm.py makes before every early decision): such an immediate is
+   never handed to a compression rule, and never gets the one-instruction form of li *)
+Theorem C08_unsettled_is_not_settled : forall l pos consts e, unsettled consts e = true -> is_settled l pos consts e = Done false.
+Proof. exact unsettled_is_settled. Qed.
+Print Assumptions C08_unsettled_is_not_settled.
+(* value_at is what the model's evaluation returns *)
+Theorem C08_value_at_is_eval : forall l p consts labels e z,
+  eval_here l p consts labels e = Done z -> value_at (chain_get consts labels) p e = Some z.
+Proof. exact eval_here_value. Qed.
+Print Assumptions C08_value_at_is_eval.
+
+(* what parse_immediate (parser model) makes of the documented spellings, for every name / token list: a bare name, any token list
+   that does not start with a %-modifier (ONE Python expression: `L + 4`, `end - start`), %offset(L) / %offset L,
+   %position(L, base) / %position L base, %hi(..) / %lo(..) of an immediate *)
+Theorem C08_immediate_spellings :
+  (forall s l, ident s = true -> parse_immediate [s] l = FOk (EArith (AName s))) /\
+  (forall h rest l, pct_head h = false -> parse_immediate (h :: rest) l = arith (h :: rest)) /\
+  (forall t L cl l, lower t = "%offset"%string -> parse_immediate [t; "("%string; L; cl] l = FOk (EOff L)) /\
+  (forall t L l, lower t = "%offset"%string -> L <> "("%string -> parse_immediate [t; L] l = FOk (EOff L)) /\
+  (forall t L x rest l, lower t = "%position"%string ->
+     parse_immediate (t :: "("%string :: L :: x :: rest) l = fbind (arith (removelast (x :: rest))) (fun e => FOk (EPos L e))) /\
+  (forall t L rest l, lower t = "%position"%string -> L <> "("%string ->
+     parse_immediate (t :: L :: rest) l = fbind (arith rest) (fun e => FOk (EPos L e))) /\
+  (forall t x rest l, lower t = "%hi"%string \/ lower t = "%lo"%string ->
+     parse_immediate (t :: "("%string :: x :: rest) l =
+     fbind (parse_immediate (removelast (x :: rest)) l) (fun e => FOk (if String.eqb (lower t) "%hi" then EHi e else ELo e))) /\
+  (forall t x rest l, lower t = "%hi"%string \/ lower t = "%lo"%string -> x <> "("%string ->
+     parse_immediate (t :: x :: rest) l =
+     fbind (parse_immediate (x :: rest) l) (fun e => FOk (if String.eqb (lower t) "%hi" then EHi e else ELo e))).
+Proof.
+  exact (conj bare_name_immediate (conj pi_arith (conj pi_offset_paren (conj pi_offset (conj pi_position_paren (conj pi_position
+        (conj pi_hilo_paren pi_hilo))))))).
+Qed.
+Print Assumptions C08_immediate_spellings.
+
+(* non-vacuity: start: / addi x8,x8,1 / align 4 / data: / dw end / dw %offset(end) / dh end - start / pack <h %offset start /
+   addi x10,x0,data / lw x11,x10,%lo(end) / lui x12,%hi(end + 4096) / sw x10,x11,%position(data, 4) / lw x11,data(x10) /
+   addi x9,x9,1 / li x13,end / end:   assembles in both modes.  Final offsets differ from the pessimistic ones in BOTH modes (`align 4`
+   announces 4 bytes and emits 0 without compression -- data = 4, not 8 -- and 2 behind the 2-byte c.addi with compression) and differ
+   BETWEEN the modes (end = 48 without, 46 with compression: the second addi shrinks).  The values emitted are the final ones:
+   dw end = 48 / 46, dw %offset(end) standing at 8 = 40 / 38, dh end - start = 48 / 46, pack <h %offset start standing at 14 = -14,
+   addi x10, x0, 4 (= data), lw x11, 48(x10) / lw x11, 46(x10) (%lo(end)), lui x12, 1 (%hi(end + 4096)), sw x11, 8(x10)
+   (%position(data, 4) = 4 + 4), lw x11, 4(x10), and li = lui x13, 0 ; addi x13, x13, 48 / 46 -- 4 bytes each in both modes. *)
+Example C08_text_example :
+  (forall cmp, assemble_text ex_vals [] [] cmp = TDone (ex_vals_result cmp)) /\
+  r_labels (ex_vals_result false) = [("start", 0); ("data", 4); ("end", 48)]%string /\
+  r_labels (ex_vals_result true) = [("start", 0); ("data", 4); ("end", 46)]%string /\
+  int_bytes 4 48 = [48; 0; 0; 0] /\ int_bytes 4 (48 - 8) = [40; 0; 0; 0] /\ int_bytes 4 46 = [46; 0; 0; 0] /\ int_bytes 4 (46 - 8) = [38; 0; 0; 0] /\
+  int_bytes 2 (48 - 0) = [48; 0] /\ pack_bytes true 2 (0 - 14) = [242; 255] /\
+  le_bytes 4 (19 + 5 * 256 + 64 * 65536) = [19; 5; 64; 0] /\ decode32 (19 + 5 * 256 + 64 * 65536) = Some (OpImm ADDI 10 0 4) /\
+  decode32 (131 + 37 * 256 + 5 * 65536 + 3 * 16777216) = Some (Load LW 11 10 48) /\
+  decode32 (131 + 37 * 256 + 229 * 65536 + 2 * 16777216) = Some (Load LW 11 10 46) /\
+  decode32 (55 + 22 * 256) = Some (Lui 12 1) /\ decode32 (35 + 36 * 256 + 181 * 65536) = Some (Store SW 10 11 8) /\
+  decode32 (131 + 37 * 256 + 69 * 65536) = Some (Load LW 11 10 4) /\
+  decode32 (183 + 6 * 256) = Some (Lui 13 0) /\ decode32 (147 + 134 * 256 + 6 * 65536 + 3 * 16777216) = Some (OpImm ADDI 13 13 48) /\
+  decode32 (147 + 134 * 256 + 230 * 65536 + 2 * 16777216) = Some (OpImm ADDI 13 13 46).
+Proof.
+  split. exact ex_vals_runs. repeat split; vm_compute; reflexivity.
+Qed.
+(* the hypotheses of the theorems above hold of its lines (token shapes, unsettled, label lines) *)
+Example C08_text_example_hyps :
+  ex_vals = firstn 4 ex_vals ++ (exT 5, "    dw end")%string :: skipn 5 ex_vals /\ lex_tokens "    dw end" = Some ["dw"; "end"]%string /\
+  short_line (exT 5) ["dw"; "end"]%string "dw" 4 (EArith (AName "end")) /\
+  ex_vals = firstn 5 ex_vals ++ (exT 6, "    dw %offset(end)")%string :: skipn 6 ex_vals /\
+  lex_tokens "    dw %offset(end)" = Some ["dw"; "%offset"; "("; "end"; ")"]%string /\
+  short_line (exT 6) ["dw"; "%offset"; "("; "end"; ")"]%string "dw" 4 (EOff "end") /\
+  short_line (exT 7) ["dh"; "end"; "-"; "start"]%string "dh" 2 (EArith (ABin OSub (AName "end") (AName "start"))) /\
+  pack_line (exT 8) ["pack"; "<h"; "%offset"; "start"]%string (String.append "<" "h") (EOff "start") /\
+  ex_vals = firstn 8 ex_vals ++ (exT 9, "    addi x10, x0, data")%string :: skipn 9 ex_vals /\
+  lex_tokens "    addi x10, x0, data" = Some ["addi"; "x10"; "x0"; "data"]%string /\
+  imm_line (exT 9) ["addi"; "x10"; "x0"; "data"]%string "ITypeInstruction" "addi" ["x10"; "x0"]%string
+           [("rd", R "x10"); ("rs1", R "x0"); ("imm", FExpr (EArith (AName "data"))); ("is_auipc_jump", FBool false)]%string (EArith (AName "data")) /\
+  unsettled [] (EArith (AName "data")) = true /\
+  imm_line (exT 10) ["lw"; "x11"; "x10"; "%lo"; "("; "end"; ")"]%string "ITypeInstruction" "lw" ["x11"; "x10"]%string
+           [("rd", R "x11"); ("rs1", R "x10"); ("imm", FExpr (ELo (EArith (AName "end")))); ("is_auipc_jump", FBool false)]%string
+           (ELo (EArith (AName "end"))) /\
+  imm_line (exT 11) ["lui"; "x12"; "%hi"; "("; "end"; "+"; "4096"; ")"]%string "UTypeInstruction" "lui" ["x12"]%string
+           [("rd", R "x12"); ("imm", FExpr (EHi (EArith (ABin OAdd (AName "end") (ANum 4096)))))]%string
+           (EHi (EArith (ABin OAdd (AName "end") (ANum 4096)))) /\
+  imm_line (exT 12) ["sw"; "x10"; "x11"; "%position"; "("; "data"; "4"; ")"]%string "STypeInstruction" "sw" ["x10"; "x11"]%string
+           [("rs1", R "x10"); ("rs2", R "x11"); ("imm", FExpr (EPos "data" (EArith (ANum 4))))]%string (EPos "data" (EArith (ANum 4))) /\
+  imm_line (exT 13) ["lw"; "x11"; "data"; "("; "x10"; ")"]%string "ITypeInstruction" "lw" ["x11"; "x10"]%string
+           [("rd", R "x11"); ("rs1", R "x10"); ("imm", FExpr (EArith (AName "data"))); ("is_auipc_jump", FBool false)]%string (EArith (AName "data")) /\
+  ex_vals = firstn 14 ex_vals ++ (exT 15, "    li x13, end")%string :: skipn 15 ex_vals /\ lex_tokens "    li x13, end" = Some ["li"; "x13"; "end"]%string /\
+  li_line (exT 15) ["li"; "x13"; "end"]%string "x13" ["end"]%string (EArith (AName "end")) /\ unsettled [] (EArith (AName "end")) = true /\
+  ex_vals = firstn 15 ex_vals ++ (exT 16, "end:")%string :: skipn 16 ex_vals /\ front_line (exT 16) "end:" = FOk (Some (ILabel "end")) /\
+  ex_vals = firstn 3 ex_vals ++ (exT 4, "data:")%string :: skipn 4 ex_vals /\ front_line (exT 4) "data:" = FOk (Some (ILabel "data")) /\
+  ident "end" = true /\ ident "data" = true.
+Proof. exact ex_vals_hyps. Qed.
+(* ... jointly: the composed theorems instantiated on that text, in both modes, for `dw %offset(end)`, `lw x11, x10, %lo(end)` and
+   `li x13, end` (q = everything in front of `end:`, p = everything in front of the line itself) *)
+Example C08_text_example_applied : forall cmp,
+  let r := ex_vals_result cmp in
+  (exists cs1 cs2 ca cb z,
+     r_chunks r = cs1 ++ (exT 6, CBytes (int_bytes 4 z)) :: cs2 /\ text_layout r 0 (firstn 5 ex_vals) cs1 /\
+     r_chunks r = ca ++ cb /\ text_layout r 0 (firstn 15 ex_vals) ca /\
+     value_at (only "end" (tot csz ca)) (tot csz cs1) (EOff "end") = Some z /\ int_fits 4 z = true) /\
+  (exists cs1 cs2 ca cb z w ops i,
+     r_chunks r = cs1 ++ (exT 10, CBytes (le_bytes 4 w)) :: cs2 /\ text_layout r 0 (firstn 9 ex_vals) cs1 /\
+     r_chunks r = ca ++ cb /\ text_layout r 0 (firstn 15 ex_vals) ca /\
+     value_at (only "end" (tot csz ca)) (tot csz cs1) (ELo (EArith (AName "end"))) = Some z /\
+     operands32 "lw" (map (alias_arg (r_consts r)) ["x11"; "x10"]%string ++ [AInt z]) [] = Some ops /\ imm_ops "ITypeInstruction" ops z /\
+     denote32 "lw" ops = Some i /\ decode32 w = Some i) /\
+  (exists cs1 cs2 ca cb bs1 bs2 nrd v,
+     r_chunks r = cs1 ++ (exT 15, CBytes bs1) :: (exT 15, CBytes bs2) :: cs2 /\ text_layout r 0 (firstn 14 ex_vals) cs1 /\
+     r_chunks r = ca ++ cb /\ text_layout r 0 (firstn 15 ex_vals) ca /\ zlen bs1 = 4 /\ zlen bs2 = 4 /\
+     regnum (AStr "x13") = Some nrd /\ value_at (only "end" (tot csz ca)) (tot csz cs1) (EArith (AName "end")) = Some v /\
+     forall s, loaded s (bs1 ++ bs2) ->
+       exists s', run_n 2 s = Some s' /\ pc s' = wrap (pc s + 8) /\ only_reg s s' nrd (wrap v)).
+Proof. exact ex_vals_applied. Qed.
+
+(* ---- what is NOT covered, and why (all checked on the real assembler) -------------------------------------------------------------------
+   * a SETTLED immediate (constants and literals only) does not depend on the layout at all: C08_settled_stable; such an instruction may
+     be compressed (C04 / C20).
+   * branches / jal / call / tail take a REFERENCE: C03_text_branch_lands, C03_text_jal_lands, C03_text_call_lands.
+   * a constant of the same name shadows a label (ChainMap(constants, labels)): hence `assoc_str L (r_consts r) = None`
+     (witness: C03_text_constant_shadows_label).
+   * the `imm(reg)` spelling takes ONE immediate token: `lw x11, %lo(end)(x10)` is refused by parse_item ("base offset form must be
+     offset(reg)" -- nine tokens, not six; the real assembler refuses it too); `lw x11, x10, %lo(end)` and `lw x11, end(x10)` are
+     accepted (imm_line: IL_i, IL_load). *)
+Example C08_text_imm_reg_spelling_takes_one_token :
+  front_line (exT 1) "    lw x11, %lo(end)(x10)" = FErr (PAsm (exT 1)) /\
+  (exists it, front_line (exT 1) "    lw x11, x10, %lo(end)" = FOk (Some it)) /\ (exists it, front_line (exT 1) "    lw x11, end(x10)" = FOk (Some it)).
+Proof. split; [vm_compute; reflexivity|]. split; eexists; vm_compute; reflexivity. Qed.
